@@ -85,7 +85,8 @@ def run(tier, seed, replay=None):
     conc = Concrete(b)
     rep.tlc(c.run_tlc("PreloadMC.tla", "PreloadMC.cfg"))
     g = c.run_tlc("PreloadMC.tla", "PreloadDefectC20.cfg", expect_violation=True)
-    rep.cov["vacuity_guards"] = {"truncate-then-write protocol": g.violated}
+    g2 = c.run_tlc("PreloadMC.tla", "PreloadDefectTmp.cfg", expect_violation=True)
+    rep.cov["vacuity_guards"] = {"truncate-then-write protocol": g.violated, "temporary opened without truncation (stale tail survives)": g2.violated}
     r = c.run_tlc("PreloadMC.tla", "PreloadGen1.cfg")
     rep.tlc(r)
     behs = [json.loads(x) for x in r.printed]
